@@ -587,3 +587,4 @@ def jsonp_body(index, text):
     """One complete call statement whose single argument is a JavaScript string literal with the
     value `text` (json.dumps of a str is such a literal: assumed library fact L-JSON-JS)."""
     return '___eio[' + str(index) + '](' + json.dumps(text) + ');'
+
